@@ -343,7 +343,8 @@ def rule_typed_dict_fields(ctx: Ctx, repo: Repo) -> None:
 
     def field_line(key: str) -> str:
         ri = RepoInterp(repo, attr_render, may_fork=(), heap=True,
-                        call_hook=lambda call, fname, fval, args, kwargs, st: K("int") if (fname or "").endswith("render_annotation") else None)
+                        call_hook=lambda call, fname, fval, args, kwargs, st: K("int") if (fname or "").endswith("render_annotation") else
+                        (R("dict", items=()) if (fname or "").endswith("get_imports_for_annotation") else None))
         ri.construct_instances = False
         outs = ri.run({"self": R("inst", name=K(key), typ=S("builtin:int"), __cls__=K(attr_render.cls.fq)), "prefix": K("    ")})
         if len(outs) != 1 or outs[0].term is None or outs[0].term[0] != "return" or not isinstance(outs[0].term[1], K):
